@@ -9,6 +9,7 @@ mod c01;
 mod c18;
 mod c16;
 mod c19;
+mod c10;
 
 use common::Case;
 use std::fs;
@@ -21,6 +22,7 @@ fn header(prop: &str) -> &'static str {
         "C18" => "From TSG Require Import Model.ParseErr.\n",
         "C16" => "From TSG Require Import Model.Globals.\n",
         "C19" => "From TSG Require Import Model.Cli.\n",
+        "C10" | "C10rx" => "From TSG Require Import Model.ScanOps.\n",
         _ => "",
     }
 }
@@ -65,6 +67,8 @@ fn main() {
                 "C18" => c18::gen(&mut rng, n),
                 "C16" => c16::gen(&mut rng, n),
                 "C19" => c19::gen(&mut rng, n),
+                "C10" => c10::gen(&mut rng, n),
+                "C10rx" => c10::gen_rx_stream(&mut rng, n),
                 _ => { eprintln!("unknown property {}", prop); std::process::exit(2) }
             };
             write_cases(&prop, &cases, shards, &out);
@@ -79,6 +83,8 @@ fn main() {
                 "C18" => c18::replay(&j["case"]),
                 "C16" => c16::replay(&j["case"]),
                 "C19" => c19::replay(&j["case"]),
+                "C10" => c10::replay(&j["case"]),
+                "C10rx" => c10::replay_rx(&j["case"]),
                 _ => { eprintln!("unknown property {}", prop); std::process::exit(2) }
             };
             write_cases(&prop, &[case], 1, &out);
